@@ -16,9 +16,11 @@ import (
 	"net/http"
 	"net/http/httptest"
 	"reflect"
+	"runtime"
 	"sort"
 	"strings"
 	"sync"
+	"sync/atomic"
 	"time"
 
 	"github.com/zeebo/bencode"
@@ -58,18 +60,21 @@ type Sim struct {
 	Lo, Hi   int // the pieces that have real hashes (all of them unless sparse)
 	Fake     *peer.Peer
 	Interval int64 // Torrent.requestInterval at the last snapshot (-1: field not found)
-	haveMu   sync.Mutex
-	haves    map[uint32]int // PeerHave{i,true} broadcasts seen by the fake peer
-	PS       uint32
-	N        int // number of pieces
-	Files    []File
-	Cancel   context.CancelFunc
-	snapMu   sync.Mutex
-	snapCh   chan []tor.VerifRequestedPiece
-	heldCh   chan chan []peer.TorEvent
-	rel      chan []peer.TorEvent
-	LogLines []string
-	killed   bool
+	// set once the case can make the real code start finalisePiece goroutines (last blocks
+	// through TorData, fully received unverified pieces found by getChunks)
+	mayFinalise atomic.Bool
+	haveMu      sync.Mutex
+	haves       map[uint32]int // PeerHave{i,true} broadcasts seen by the fake peer
+	PS          uint32
+	N           int // number of pieces
+	Files       []File
+	Cancel      context.CancelFunc
+	snapMu      sync.Mutex
+	snapCh      chan []tor.VerifRequestedPiece
+	heldCh      chan chan []peer.TorEvent
+	rel         chan []peer.TorEvent
+	LogLines    []string
+	killed      bool
 }
 
 type logWriter struct{ s *Sim }
@@ -229,6 +234,9 @@ func NewOpt2(name string, salt uint32, ps uint32, files []File, single bool, lo,
 	var urls []string
 	if webSeed {
 		urls = []string{WebSeedURL()}
+		// with a web seed the request ticker can be armed: getChunks may hand a fully
+		// received piece to finalisePiece at any tick
+		s.mayFinalise.Store(true)
 	}
 	tb := TorrentFileSparse2(name, ps, files, single, s.Ref, lo, hi, urls)
 	t, err := tor.ReadTorrent("", bytes.NewReader(tb))
@@ -274,6 +282,8 @@ func (s *Sim) drainFake() {
 				}
 			case peer.PeerGetStatus:
 				close(e.Ch)
+			case drainMarker:
+				close(e.ch)
 			}
 		case <-s.T.Deleted:
 			return
@@ -284,13 +294,23 @@ func (s *Sim) drainFake() {
 // HaveCount: how many TorHave(i, true) the loop has handled (fake peer only).  Call after
 // Sync: the broadcast precedes the end of the handler, the drain may lag by a moment.
 func (s *Sim) HaveCount(i uint32) int {
-	for k := 0; k < 200 && len(s.Fake.Event) > 0; k++ {
-		time.Sleep(100 * time.Microsecond)
+	// a marker through the fake peer's own channel: when the drain goroutine answers it,
+	// every broadcast the loop sent before (FIFO) has been counted
+	m := drainMarker{make(chan struct{})}
+	select {
+	case s.Fake.Event <- m:
+		select {
+		case <-m.ch:
+		case <-s.T.Deleted:
+		}
+	case <-s.T.Deleted:
 	}
 	s.haveMu.Lock()
 	defer s.haveMu.Unlock()
 	return s.haves[i]
 }
+
+type drainMarker struct{ ch chan struct{} }
 
 // Fill stuffs Torrent.Event to capacity with harmless events (TorHave{_, false}: a
 // broadcast to nobody).  Only meaningful while the loop is held.
@@ -311,6 +331,7 @@ func (s *Sim) Fill() int {
 // that the REAL handler starts the REAL finalisePiece goroutine(s), which announce through
 // the real Torrent.Have.  Returns whether AddData reported the piece complete.
 func (s *Sim) LastBlock(i uint32, wrong bool, k int) bool {
+	s.mayFinalise.Store(true)
 	off, end := s.PieceRange(i)
 	data := append([]byte(nil), s.Ref(off, end)...)
 	if wrong {
@@ -346,24 +367,58 @@ func (s *Sim) LastBlock(i uint32, wrong bool, k int) bool {
 
 // Quiesce waits until no piece of lo..hi is being hashed and the loop has handled what the
 // hashing goroutines sent.
-func (s *Sim) Quiesce() {
-	for round := 0; round < 3; round++ {
-		for k := 0; k < 20000; k++ {
-			busy := false
-			for i := s.Lo; i <= s.Hi; i++ {
-				if s.T.Pieces.VerifPiece(uint32(i)).State == 2 {
-					busy = true
-					break
-				}
-			}
-			if !busy {
-				break
-			}
-			time.Sleep(100 * time.Microsecond)
+// LoopDead: has the event loop stopped?
+func (s *Sim) LoopDead() bool {
+	select {
+	case <-s.T.Done:
+		return true
+	default:
+		return false
+	}
+}
+
+// finalising: is a goroutine of tor.finalisePiece alive anywhere in the process?  (It exists
+// from the moment the TorData handler / getChunks executes the `go` statement until it has
+// returned from Torrent.Have and Torrent.BadPeers, i.e. until its notifications are in the
+// loop's queue.)  Exact: read from the runtime's goroutine table, not inferred from timing.
+func finalising() bool {
+	buf := make([]byte, 1<<20)
+	for {
+		n := runtime.Stack(buf, true)
+		if n < len(buf) {
+			return bytes.Contains(buf[:n], []byte("tor.finalisePiece"))
 		}
-		time.Sleep(time.Millisecond)
-		if !s.Sync() {
-			return
+		buf = make([]byte, 2*len(buf))
+	}
+}
+
+// Quiesce returns when (1) every event sent so far has been handled, (2) no finalisePiece
+// goroutine exists, (3) every event those goroutines sent has been handled, and (4) handling
+// them started no new one.  The waits poll a condition; no verdict depends on their length.
+// False: the loop is dead, or the condition was not reached within the watchdog.
+func (s *Sim) Quiesce() bool {
+	if !s.mayFinalise.Load() {
+		return s.Sync()
+	}
+	deadline := time.Now().Add(15 * time.Second)
+	for {
+		if !s.Sync() { // goroutines started by queued TorData / unchoke events now exist
+			return false
+		}
+		for finalising() {
+			if time.Now().After(deadline) {
+				return false
+			}
+			time.Sleep(200 * time.Microsecond)
+		}
+		if !s.Sync() { // their TorHave / TorBadPeer events are handled
+			return false
+		}
+		if !finalising() { // … and the handlers (or a tick) started no new verification
+			return true
+		}
+		if time.Now().After(deadline) {
+			return false
 		}
 	}
 }
@@ -458,6 +513,9 @@ func (s *Sim) Verify(i uint32) (bool, error) { return s.injectOpt(i, false, fals
 // Garbage stores wrong bytes in piece i the way a corrupting peer's blocks would land
 // (AddData only, no verification): the whole piece, or its first block only.
 func (s *Sim) Garbage(i uint32, whole bool) {
+	if whole {
+		s.mayFinalise.Store(true) // a full bitmap: getChunks will hand it to finalisePiece
+	}
 	off, end := s.PieceRange(i)
 	data := append([]byte(nil), s.Ref(off, end)...)
 	for k := range data {
